@@ -219,6 +219,8 @@ def _unpack_stack(scope, only_errors=True):
         # nondeterministic bug in abc's __eq__ see #189 for details
         if id(child) in [id(b) for b in branches]:
             break  # if child already covered by branches, stop the linear descent
+        if only_errors and child.maps[0].get(CUR_ERROR) is None:
+            break  # the last child did not fail: whatever failed below it was recovered from
 
         scope = child.maps[0]
     else:  # if break executed above, cur scope was already added
